@@ -64,9 +64,9 @@ func runC16(c *Ctx) {
 	c.floor("DA", 8)
 	c.floor("DL", 4)
 	s.ruleDICounter("DI.COUNTER")
-	c.floor("DI.COUNTER", 1)
+	c.floor("DI.COUNTER", 0)
 	s.ruleConsume("DL.CONSUME")
-	c.floor("DL.CONSUME", 3)
+	c.floor("DL.CONSUME", 1)
 	// (DR.SHORT / DR.LINE belong to the round-trip property C15: a short read or
 	// a split line mis-decodes but neither panics, spins nor over-allocates)
 }
